@@ -75,6 +75,7 @@ type Model struct {
 
 	defsMemo  map[ast.Node]map[*types.Var]*defInfo
 	leafConst *ast.Ident
+	ptMemo    map[*FuncUnit]int
 }
 
 func (m *Model) pos(p token.Pos) string { return m.L.position(p) }
